@@ -413,13 +413,28 @@ def run_cases(cases, out, label, sandbox):
     out.transitions += verdicts.n_events
     out.traces_validated += verdicts.accepted(len(items))
     by_id = {it["id"]: it for it in items}
+    cov = out.extra.setdefault("coverage_of_executed_chains", {"fmt": {}, "end": {}, "crash": {}, "exc": {}, "entry": {}, "l1_failing_chains": 0})
+    for it in items:
+        _inc(cov["fmt"], it["p"]["fmt"] + ("" if it["p"]["tool"] == "none" else "+tool-" + it["p"]["tool"]))
+        _inc(cov["entry"], it["p"]["entry"])
+        for r in it["runs"]:
+            _inc(cov["end"], r["end"])
+            _inc(cov["crash"], r["crash"]["kind"])
+            if r["exc"] != "-":
+                _inc(cov["exc"], r["exc"])
+    cov["l1_failing_chains"] += len(verdicts.l1)
     for tid, fails in verdicts.l1.items():
         case, det = index[tid]
         item = by_id[tid]
         line, clauses = fails[0]
         sig = _signature(clauses, item, line - 1)
         out.violations.append(
-            Violation(",".join(clauses), case, signature=sig, detail="%s run %d: %s" % (tid, line, _explain(item, line - 1, det["runs"])))
+            Violation(
+                ",".join(clauses),
+                case,
+                signature=sig,
+                detail="[%s] %s run %d: %s" % (" ".join("%s=%s" % (k, sig[k]) for k in ("defect", "cause", "origin") if k in sig), tid, line, _explain(item, line - 1, det["runs"])),
+            )
         )
     for tid, lines in verdicts.l2.items():
         item = by_id[tid]
@@ -429,6 +444,10 @@ def run_cases(cases, out, label, sandbox):
             % (tid, lines[0], item["p"], item["init"], "" if r is None else "outs=%s crash=%s end=%s/%s traj=%s" % (r["outs"], r["crash"], r["end"], r["exc"], r["traj"]))
         )
     return items, unreal
+
+
+def _inc(d, k):
+    d[k] = d.get(k, 0) + 1
 
 
 def _explain(item, k, det):
@@ -486,16 +505,16 @@ def run(ctx, out):
     out.exhaustive = False
     # ---- Legs S2C + C2S
     sandbox = tlc.scratch("c14-sandbox")
-    sim = cases_from_tlc(ctx, out, 70 if ctx.quick else 1200, 90)
+    sim = cases_from_tlc(ctx, out, 70 if ctx.quick else 1000, 90)
     items, unreal = run_cases(sim, out, "sim", sandbox)
     out.note("leg S2C: %d TLC behaviours executed, %d crash points not realisable (no observed call in that state)" % (len(sim), unreal))
     for it in items[:2]:
         out.sample({"source": "tlc-simulate", "id": it["id"], "p": it["p"], "init": it["init"], "runs": [{k: r[k] for k in ("outs", "crash", "end", "exc", "fs", "offOK")} for r in it["runs"]]})
-    rnd = random_cases(ctx.seed + 41, 45 if ctx.quick else 900)
+    rnd = random_cases(ctx.seed + 41, 45 if ctx.quick else 700)
     items, _ = run_cases(rnd, out, "rnd", sandbox)
     for it in items[:1]:
         out.sample({"source": "random", "id": it["id"], "p": it["p"], "init": it["init"], "runs": [{k: r[k] for k in ("outs", "crash", "end", "exc", "fs", "offOK")} for r in it["runs"]]})
-    sw = sweep_cases([ctx.seed % len(CANONICAL)], limit=12) if ctx.quick else sweep_cases(range(len(CANONICAL)))
+    sw = sweep_cases([ctx.seed % len(CANONICAL)], limit=12) if ctx.quick else sweep_cases(range(len(CANONICAL)), limit=60)
     items, _ = run_cases(sw, out, "sweep", sandbox)
     items, unreal = run_cases(directed_cases(), out, "directed", sandbox)
     if unreal and not repaired_switches():
@@ -503,6 +522,11 @@ def run(ctx, out):
     if unreal:
         out.note("%d directed crash points no longer exist in the repaired tree" % unreal)
     out.note("leg C2S: %d chains validated by TLC" % out.traces_validated)
+    cov = out.extra["coverage_of_executed_chains"]
+    for dim, need in (("end", ("returned", "raised", "crashed", "declined")), ("crash", ("kill", "intr", "none")), ("exc", ("DataError", "SystemSetupError", "NetError", "LibError"))):
+        for k in need:
+            if not cov[dim].get(k):
+                out.vacuous.append("%s=%s never observed on the real code" % (dim, k))
 
 
 def replay(ctx, case):
